@@ -90,6 +90,14 @@ def tasks(tier):
     for e in ENTRIES0:
         cfg = dict(M=1, alphabet=["ok", "xsc:U", "x:T"], attempt_hooks="call")
         out.append({"family": "outcome-string-code", "cfg": cfg, "entry": e, "bound": 0})
+    # a breaker with class thresholds that has already been through a full trip / recovery cycle
+    RECOVERED = {"threshold": 3, "window": 8, "recovery": 2, "trip_on": ["T", "U", "P"],
+                 "class_thresholds": {"R": 1, "T": 2},
+                 "pre": [("fail", "R"), ("tick", 2), ("allow",), ("success",)]}
+    for M, e in itertools.product([2, 3], ["Policy.execute", "AsyncPolicy.execute", "PolicySet.execute"]):
+        cfg = dict(M=M, alphabet=["ok", "x:T", "x:R", "r:R", "x:P"], max_unknown=None,
+                   breaker=RECOVERED)
+        out.append({"family": "outcome-breaker-recovered", "cfg": cfg, "entry": e, "bound": 1})
     # no retry component
     for e in ENTRIES0:
         cfg = dict(M=1, alphabet=["ok"] + [f"x:{k}" for k in "TRSCUPAF"] + ["abort", "kbd", "cancel"],
